@@ -14,6 +14,7 @@ import (
 	"fmt"
 	"math/rand/v2"
 	"net"
+	"sort"
 	"strings"
 	"sync"
 	"testing"
@@ -408,6 +409,26 @@ func vfC19Gather(e *vfEnv, r *vfResult, idx int) { //nolint:cyclop
 			pool = pool[1:]
 		}
 		ifs = append(ifs, ifc)
+	}
+	// identity mappings: a machine that carries its public address itself lists a local address among the externals
+	if rng.IntN(3) == 0 {
+		locs := vfSortedKeys(map[string]bool{})
+		for l := range where {
+			locs = append(locs, l)
+		}
+		sort.Strings(locs)
+		for j := range rules {
+			if vfC19EffType(rules[j].AsCandidateType) == CandidateTypeHost && len(locs) > 0 && rng.IntN(2) == 0 {
+				l := locs[rng.IntN(len(locs))]
+				ext := append([]string{}, rules[j].External...)
+				if rng.IntN(2) == 0 {
+					ext = append([]string{l}, ext...)
+				} else {
+					ext = append(ext, l)
+				}
+				rules[j].External = ext
+			}
+		}
 	}
 	sw := newVfSwitch()
 	a, err := NewAgentWithOptions(WithNet(newVfNet(sw, "G", ifs...)), WithAddressRewriteRules(rules...), WithMulticastDNSMode(MulticastDNSModeDisabled),
